@@ -1,0 +1,91 @@
+//go:build verif
+
+package replica
+
+import (
+	"bytes"
+	"context"
+
+	"github.com/lindb/lindb/models"
+	"github.com/lindb/lindb/pkg/option"
+	"github.com/lindb/lindb/pkg/timeutil"
+	"github.com/lindb/lindb/series/metric"
+)
+
+// Verification export for property C16 (ingestion routing). It adds no behaviour: it runs the
+// real databaseChannel (newDatabaseChannel + Write) on a batch, with shard / family channels that
+// record what they are handed instead of replicating it.
+
+// VerifC16Row is one row handed to FamilyChannel.Write.
+type VerifC16Row struct {
+	Name    string // metric name of the row (read through BrokerRow.Metric, mark or not)
+	Written int    // bytes BrokerRow.WriteTo produced
+	Marked  bool   // BrokerRow.IsOutOfTimeRange
+}
+
+// VerifC16Group is one FamilyChannel.Write call.
+type VerifC16Group struct {
+	Shard      int
+	FamilyTime int64
+	Rows       []VerifC16Row
+}
+
+type verifC16Shard struct {
+	id  int
+	rec *[]VerifC16Group
+}
+
+func (s *verifC16Shard) SyncShardState(models.ShardState, map[models.NodeID]models.StatefulNode) {}
+func (s *verifC16Shard) GetOrCreateFamilyChannel(familyTime int64) FamilyChannel {
+	return &verifC16Family{shard: s.id, familyTime: familyTime, rec: s.rec}
+}
+func (s *verifC16Shard) Stop()                             {}
+func (s *verifC16Shard) garbageCollect(ahead, behind int64) {}
+
+type verifC16Family struct {
+	shard      int
+	familyTime int64
+	rec        *[]VerifC16Group
+}
+
+func (f *verifC16Family) Write(_ context.Context, rows []metric.BrokerRow) error {
+	g := VerifC16Group{Shard: f.shard, FamilyTime: f.familyTime}
+	for i := range rows {
+		var buf bytes.Buffer
+		n, err := rows[i].WriteTo(&buf)
+		if err != nil {
+			return err
+		}
+		m := rows[i].Metric()
+		g.Rows = append(g.Rows, VerifC16Row{Name: string(m.Name()), Written: n, Marked: rows[i].IsOutOfTimeRange})
+	}
+	*f.rec = append(*f.rec, g)
+	return nil
+}
+func (f *verifC16Family) leaderChanged(models.ShardState, map[models.NodeID]models.StatefulNode) {}
+func (f *verifC16Family) Stop(int64)                                                          {}
+func (f *verifC16Family) FamilyTime() int64                                                   { return f.familyTime }
+func (f *verifC16Family) isExpire(ahead, behind int64) bool                                    { return false }
+
+// VerifC16Write builds a databaseChannel for a database with the given storage intervals (the
+// channel itself picks the smallest) and shard count, installs recording channels for the shards
+// listed in present, sets the write window (milliseconds; <= 0 disables a side) and runs Write.
+func VerifC16Write(
+	intervals []timeutil.Interval, numOfShards int32, present []int, behind, ahead int64,
+	batch *metric.BrokerBatchRows,
+) (groups []VerifC16Group, err error) {
+	opt := &option.DatabaseOption{}
+	for _, iv := range intervals {
+		opt.Intervals = append(opt.Intervals, option.Interval{Interval: iv, Retention: iv * 1000})
+	}
+	ctx, cancel := context.WithCancel(context.Background())
+	defer cancel()
+	dc := newDatabaseChannel(ctx, models.Database{Name: "verif-c16", Option: opt}, numOfShards, nil).(*databaseChannel)
+	dc.behind.Store(behind)
+	dc.ahead.Store(ahead)
+	for _, id := range present {
+		dc.insertShardChannel(models.ShardID(id), &verifC16Shard{id: id, rec: &groups})
+	}
+	err = dc.Write(ctx, batch)
+	return groups, err
+}
